@@ -50,6 +50,10 @@ def catalog():
         pathlib=True, discard=True)
     add('cross_split', like='cross', n_live=100, n_batch=25, n_eff=100, f_live=0.1, n_points_min=6,
         split_threshold=1.0)
+    add('ring_pend_d', like='ring', n_live=50, n_batch=25, n_networks=1, n_eff=40, f_live=0.1,
+        n_points_min=5, discard=True, want='pending')
+    add('faint_trim', like='faint', n_live=200, n_batch=50, n_eff=50, f_live=0.05, n_points_min=10,
+        seed=3, want='trim')
     add('corr', like='corr', n_live=60, n_batch=20, n_eff=100, f_live=0.1)
     add('vec_pool', like='gauss', blob='float', vectorized=True, pool_l=2, n_live=30, n_batch=14,
         n_eff=80, f_live=0.1)
